@@ -8,6 +8,7 @@ import Rsa.Props.C12
 #print axioms Rsa.Props.C12.fresh_producer_safe
 #print axioms Rsa.Props.C12.copy_is_fresh
 #print axioms Rsa.Props.C12.shared_dict_counterexample
+#print axioms Rsa.Props.C12.rebind_makes_shared_dict_harmless
 #print axioms Rsa.Props.C12.transform_inplace_counterexample
 #print axioms Rsa.Props.C12.concat_reorders_argument
 #print axioms Rsa.Props.C12.shared_write_interferes
